@@ -61,6 +61,53 @@ def exporter_models(chk, tier, selftests=("flush_late", "rot_drops_block", "stal
     shutil.rmtree(work, ignore_errors=True)
 
 
+X_INVS = ["C13_Contained", "C04_Stated", "C12_NoEmptyBlocks", "C12_ConserveX"]
+
+
+def exporter_x_models(chk, tier):
+    """MCExporterX: the exporter together with a block the application keeps itself (write_block(block))."""
+    work = vlib.scratch("expxmc")
+    maxops = 4 if tier == "quick" else 5
+    cfg = vlib.make_cfg(work / "MCExporterX.cfg", spec="MCSpec",
+                        constants={"MaxOps": maxops, "Sizes": "{2}", "Emit": "FALSE", "XBug": '"none"'},
+                        invariants=X_INVS, properties=["C13_Frozen"])
+    res, verdict = vlib.model_check("MCExporterX", cfg, workers=vlib.NCPU, timeout=3000, xmx="24g")
+    chk.add_model(f"MCExporterX(MaxOps={maxops}: exporter + application-kept block)", res, verdict)
+    cfg = vlib.make_cfg(work / "MCExporterX_bug.cfg", spec="MCSpec",
+                        constants={"MaxOps": 4, "Sizes": "{2}", "Emit": "FALSE", "XBug": '"xclear_drops_index"'},
+                        invariants=X_INVS, properties=["C13_Frozen"])
+    res, verdict = vlib.model_check("MCExporterX", cfg, workers=8, timeout=900, xmx="8g")
+    chk.add_model("MCExporterX[XBug=xclear_drops_index] (self-test, must fail)", res, verdict, expect="violated")
+    shutil.rmtree(work, ignore_errors=True)
+
+
+def generated_x_histories(chk, maxops, limit=None, want=None):
+    """Complete histories of MCExporterX that write the kept block at least once, emitted by TLC."""
+    work = vlib.scratch("expxgen")
+    cfg = vlib.make_cfg(work / "GenExporterX.cfg", spec="MCSpec",
+                        constants={"MaxOps": maxops, "Sizes": "{2}", "Emit": "TRUE", "XBug": '"none"'},
+                        invariants=["EmitDone"])
+    res = vlib.run_tlc("MCExporterX", cfg, workers=8, timeout=1500, xmx="8g")
+    if not vlib.tlc_ok(res):
+        raise vlib.Infra("history generation failed: " + res["out"][-2000:])
+    hs = []
+    for line in res["out"].splitlines():
+        if line.startswith('<<"HIST"'):
+            m = re.match(r'<<"HIST", (".*")>>\s*$', line)
+            hs.append(json.loads(json.loads(m.group(1))))
+    shutil.rmtree(work, ignore_errors=True)
+    chk.states += res["distinct"]
+    chk.transitions += res["generated"]
+    if want:
+        hs = [h for h in hs if want(h)]
+    total = len(hs)
+    if limit and len(hs) > limit:
+        hs = rng_for(chk, 98).sample(hs, limit)
+    chk.extra["generated_x_histories_total"] = total
+    chk.extra["generated_x_histories_replayed"] = len(hs)
+    return hs
+
+
 def generated_histories(chk, maxops, sizes, limit=None):
     """All complete histories of MCExporter of length maxops, emitted by TLC (behaviours of the spec)."""
     work = vlib.scratch("expgen")
